@@ -480,6 +480,10 @@ def hAll (args res : List String) : Verdict :=
 def handleIxs (op : String) (args res : List String) : Option Verdict :=
   match op with
   | "ixs_consts" => some (hConsts args res)
+  | "ixs_ctor" => some (match res with
+      | "ok" :: rest => hConsts args rest
+      | ["E"] => .skip "constructor threw (outside the documented range: judged by the harness)"
+      | _ => .bad "parse")
   | "ixs_comp" => some (hComp args res)
   | "ixs_basic" => some (hBasic args res)
   | "ixs_closest" => some (hClosest args res)
